@@ -1,8 +1,11 @@
 //! Dynamic view types and values + token encoding + generator + transition tags.
 //!
-//!   ty  ::= t | u | h <tag> <n> aty^n ty | p <n> ty^n | o ty | e <n> ty^n | v ty | a | k
+//!   ty  ::= t | ts | tw | ta | u | h <tag> <n> aty^n ty | p <n> ty^n | o ty | e <n> ty^n | v ty | a | k
+//!         | r <n> ty     (t = String, ts = &'static str, tw = Cow<'static, str>, ta = Arc<str>; r = [T; n])
 //!   aty ::= s:<name> | os:<name> | b:<name> | c | oc | tc | y | py | opy
-//!   val(t) = <hex>        val(u) = u           val(p ..) = the component values in order
+//!   val(t*) = <hex> | <hexbuf>:<start>:<len>  (bytes start..start+len of the buffer; equal buffers are ONE
+//!             interned allocation in the harness, so such values are slices of one buffer)   val(r n ty) = val^n
+//!   val(u) = u           val(p ..) = the component values in order
 //!   val(o ty) = n | s val val(e ..) = <i> val  val(v ty) = <n> val^n   val(a) = ty val
 //!   val(k) = <n> key^n    (decimal keys; the item view is `<li>k{key}</li>`)
 //!   val(h ..) = the attribute values in order, then the child value
@@ -24,9 +27,23 @@ pub enum ATy {
     OPSty,
 }
 
+#[derive(Clone, Copy, Debug, PartialEq, Eq)]
+pub enum TextKind {
+    /// `&'static str`
+    Str,
+    /// `Cow<'static, str>`
+    Cow,
+    /// `Arc<str>`
+    Arc,
+}
+
 #[derive(Clone, Debug, PartialEq, Eq)]
 pub enum TyD {
     Text,
+    /// a text child of another string type
+    TextK(TextKind),
+    /// `[T; n]`; values are `ValD::Tuple`
+    Arr(usize, Box<TyD>),
     Unit,
     Elem(String, Vec<ATy>, Box<TyD>),
     Tuple(Vec<TyD>),
@@ -53,6 +70,8 @@ pub enum AVal {
 #[derive(Clone, Debug, PartialEq, Eq)]
 pub enum ValD {
     Text(String),
+    /// the text `buf[start..start + len]` (byte offsets on char boundaries)
+    Slice { buf: String, start: usize, len: usize },
     Unit,
     Elem(Vec<AVal>, Box<ValD>),
     Tuple(Vec<ValD>),
@@ -118,6 +137,14 @@ impl TyD {
     pub fn tokens(&self, out: &mut Vec<String>) {
         match self {
             TyD::Text => out.push("t".into()),
+            TyD::TextK(TextKind::Str) => out.push("ts".into()),
+            TyD::TextK(TextKind::Cow) => out.push("tw".into()),
+            TyD::TextK(TextKind::Arc) => out.push("ta".into()),
+            TyD::Arr(n, t) => {
+                out.push("r".into());
+                out.push(n.to_string());
+                t.tokens(out);
+            }
             TyD::Unit => out.push("u".into()),
             TyD::Any => out.push("a".into()),
             TyD::Keyed => out.push("k".into()),
@@ -158,6 +185,13 @@ impl TyD {
     pub fn parse(t: &mut Toks) -> Option<TyD> {
         Some(match t.next()? {
             "t" => TyD::Text,
+            "ts" => TyD::TextK(TextKind::Str),
+            "tw" => TyD::TextK(TextKind::Cow),
+            "ta" => TyD::TextK(TextKind::Arc),
+            "r" => {
+                let n: usize = t.next()?.parse().ok()?;
+                TyD::Arr(n, Box::new(TyD::parse(t)?))
+            }
             "u" => TyD::Unit,
             "a" => TyD::Any,
             "k" => TyD::Keyed,
@@ -190,16 +224,29 @@ impl TyD {
     }
     pub fn depth(&self) -> usize {
         match self {
-            TyD::Text | TyD::Unit | TyD::Any | TyD::Keyed => 1,
+            TyD::Text | TyD::TextK(_) | TyD::Unit | TyD::Any | TyD::Keyed => 1,
+            TyD::Arr(_, t) => 1 + t.depth(),
             TyD::Elem(_, _, c) => 1 + c.depth(),
             TyD::Tuple(ts) | TyD::Either(ts) => 1 + ts.iter().map(|t| t.depth()).max().unwrap_or(0),
             TyD::Opt(t) | TyD::Vec(t) => 1 + t.depth(),
         }
     }
+    /// contains an `Arc<str>` text (its `Owned` type differs from `String`'s, so it is kept out of
+    /// `AnyView` contents, where the Lean model compares types with one text type)
+    pub fn has_arc(&self) -> bool {
+        match self {
+            TyD::TextK(TextKind::Arc) => true,
+            TyD::Text | TyD::TextK(_) | TyD::Unit | TyD::Any | TyD::Keyed => false,
+            TyD::Arr(_, t) | TyD::Opt(t) | TyD::Vec(t) => t.has_arc(),
+            TyD::Elem(_, _, c) => c.has_arc(),
+            TyD::Tuple(ts) | TyD::Either(ts) => ts.iter().any(|t| t.has_arc()),
+        }
+    }
     pub fn has_keyed(&self) -> bool {
         match self {
             TyD::Keyed => true,
-            TyD::Text | TyD::Unit | TyD::Any => false,
+            TyD::Text | TyD::TextK(_) | TyD::Unit | TyD::Any => false,
+            TyD::Arr(_, t) => t.has_keyed(),
             TyD::Elem(_, _, c) => c.has_keyed(),
             TyD::Tuple(ts) | TyD::Either(ts) => ts.iter().any(|t| t.has_keyed()),
             TyD::Opt(t) | TyD::Vec(t) => t.has_keyed(),
@@ -278,6 +325,7 @@ impl ValD {
     pub fn tokens(&self, out: &mut Vec<String>) {
         match self {
             ValD::Text(s) => out.push(hex(s.as_bytes())),
+            ValD::Slice { buf, start, len } => out.push(format!("{}:{start}:{len}", hex(buf.as_bytes()))),
             ValD::Unit => out.push("u".into()),
             ValD::Elem(avs, c) => {
                 avs.iter().for_each(|a| a.tokens(out));
@@ -314,7 +362,26 @@ impl ValD {
     }
     pub fn parse(ty: &TyD, t: &mut Toks) -> Option<ValD> {
         Some(match ty {
-            TyD::Text => ValD::Text(unhex_str(t.next()?)?),
+            TyD::Text | TyD::TextK(_) => {
+                let tok = t.next()?;
+                match tok.split(':').collect::<Vec<_>>().as_slice() {
+                    [h] => ValD::Text(unhex_str(h)?),
+                    [b, st, ln] => {
+                        let buf = unhex_str(b)?;
+                        let (start, len): (usize, usize) = (st.parse().ok()?, ln.parse().ok()?);
+                        buf.get(start..start + len)?;
+                        ValD::Slice { buf, start, len }
+                    }
+                    _ => return None,
+                }
+            }
+            TyD::Arr(n, ty) => {
+                let mut vs = vec![];
+                for _ in 0..*n {
+                    vs.push(ValD::parse(ty, t)?);
+                }
+                ValD::Tuple(vs)
+            }
             TyD::Unit => (t.next()? == "u").then_some(ValD::Unit)?,
             TyD::Elem(_, ats, ct) => {
                 let mut avs = vec![];
@@ -370,6 +437,8 @@ impl ValD {
 pub const TEXTS: &[&str] = &[
     "", "a", "b", "ab", " ", "<", "&amp;", "\"", "é", "a b", "x\ny", "<!--", "-->", "</div>", "'",
 ];
+/// buffers that sliced text values point into
+pub const BUFFERS: &[&str] = &["hello world", "aé<b>&amp; x", "ab", " x\ny "];
 pub const CLASSES: &[&str] = &["", "a", "b", "a b", "b a", "a  a", " c ", "on big", "x\ty"];
 pub const TOGGLES: &[&str] = &["a", "b", "c", "on", "é"];
 pub const STYLES: &[&str] = &[
@@ -435,6 +504,45 @@ impl Gen<'_> {
         }
     }
 
+    /// a text value: a fresh string, or a slice of one of a few shared buffers; with a sliced `prev`,
+    /// biased to slices of the SAME buffer (same start with another length = prefix grows /
+    /// shrinks, same slice, another start = suffix, the whole buffer)
+    fn text_val(&mut self, prev: Option<&ValD>) -> ValD {
+        let bounds = |b: &str| -> Vec<usize> {
+            b.char_indices().map(|(i, _)| i).chain(std::iter::once(b.len())).collect()
+        };
+        if let Some(ValD::Slice { buf, start, len }) = prev {
+            let bs = bounds(buf);
+            match self.rng.below(8) {
+                0 | 1 | 2 => {
+                    // same start, another end
+                    let ends: Vec<usize> = bs.iter().copied().filter(|e| *e >= *start).collect();
+                    let e = *self.rng.pick(&ends);
+                    return ValD::Slice { buf: buf.clone(), start: *start, len: e - start };
+                }
+                3 => return ValD::Slice { buf: buf.clone(), start: *start, len: *len },
+                4 => {
+                    // suffix: another start, same end
+                    let end = start + len;
+                    let starts: Vec<usize> = bs.iter().copied().filter(|b| *b <= end).collect();
+                    let st = *self.rng.pick(&starts);
+                    return ValD::Slice { buf: buf.clone(), start: st, len: end - st };
+                }
+                5 => return ValD::Slice { buf: buf.clone(), start: 0, len: buf.len() },
+                _ => {}
+            }
+        }
+        if self.rng.chance(1, 2) {
+            let buf = self.rng.pick(BUFFERS).to_string();
+            let bs = bounds(&buf);
+            let i = self.rng.below(bs.len());
+            let j = i + self.rng.below(bs.len() - i);
+            ValD::Slice { start: bs[i], len: bs[j] - bs[i], buf }
+        } else {
+            ValD::Text(self.text())
+        }
+    }
+
     /// a value of `ty`; with `prev`, a value that shares parts with `prev` (each node is kept
     /// with probability 1/4, otherwise regenerated with the corresponding children as hints)
     pub fn val(&mut self, ty: &TyD, prev: Option<&ValD>, depth: usize) -> ValD {
@@ -444,7 +552,16 @@ impl Gen<'_> {
             }
         }
         match ty {
-            TyD::Text => ValD::Text(self.text()),
+            TyD::Text | TyD::TextK(_) => self.text_val(prev),
+            TyD::Arr(n, t) => {
+                let pv = match prev {
+                    Some(ValD::Tuple(v)) => Some(v),
+                    _ => None,
+                };
+                ValD::Tuple(
+                    (0..*n).map(|i| self.val(t, pv.and_then(|p| p.get(i)), depth.saturating_sub(1))).collect(),
+                )
+            }
             TyD::Unit => ValD::Unit,
             TyD::Elem(_, ats, ct) => {
                 let (pa, pc) = match prev {
@@ -623,13 +740,54 @@ fn atags(a: &AVal, b: &AVal, out: &mut BTreeSet<String>) {
     out.insert(t.into());
 }
 
+/// contents of a text value
+pub fn text_of(v: &ValD) -> Option<String> {
+    match v {
+        ValD::Text(s) => Some(s.clone()),
+        ValD::Slice { buf, start, len } => buf.get(*start..start + len).map(str::to_string),
+        _ => None,
+    }
+}
+
+/// the value renders no DOM node at all (`[T; 0]`, tuples / arrays of such)
+pub fn nodeless(v: &ValD) -> bool {
+    match v {
+        ValD::Tuple(vs) => vs.iter().all(nodeless),
+        ValD::Opt(Some(v)) | ValD::Either(_, v) | ValD::Any(_, v) => nodeless(v),
+        _ => false,
+    }
+}
+
 /// names the transitions that rebuilding `a` into `b` exercises
 pub fn transition_tags(a: &ValD, b: &ValD, out: &mut BTreeSet<String>) {
     match (a, b) {
-        (ValD::Text(x), ValD::Text(y)) => {
-            out.insert(if x == y { "text-same" } else { "text-change" }.into());
-            if y.is_empty() {
+        (x @ (ValD::Text(_) | ValD::Slice { .. }), y @ (ValD::Text(_) | ValD::Slice { .. })) => {
+            let (xs, ys) = (text_of(x).unwrap_or_default(), text_of(y).unwrap_or_default());
+            out.insert(if xs == ys { "text-same" } else { "text-change" }.into());
+            if ys.is_empty() {
                 out.insert("text-empty".into());
+            }
+            if let (ValD::Slice { buf: b1, start: s1, len: l1 }, ValD::Slice { buf: b2, start: s2, len: l2 }) = (x, y) {
+                if b1 == b2 {
+                    out.insert(
+                        if s1 == s2 && l1 == l2 {
+                            "slice-identical"
+                        } else if s1 == s2 && l2 < l1 {
+                            "slice-same-start-shorter"
+                        } else if s1 == s2 {
+                            "slice-same-start-longer"
+                        } else if s1 + l1 == s2 + l2 {
+                            "slice-suffix"
+                        } else {
+                            "slice-other-range"
+                        }
+                        .into(),
+                    );
+                } else {
+                    out.insert("slice-other-buffer".into());
+                }
+            } else if matches!(y, ValD::Slice { .. }) || matches!(x, ValD::Slice { .. }) {
+                out.insert("slice-vs-fresh".into());
             }
         }
         (ValD::Unit, ValD::Unit) => {
@@ -644,6 +802,9 @@ pub fn transition_tags(a: &ValD, b: &ValD, out: &mut BTreeSet<String>) {
         }
         (ValD::Tuple(xs), ValD::Tuple(ys)) => {
             out.insert(format!("tuple{}", xs.len()));
+            if xs.len() >= 2 && xs.first().map(nodeless).unwrap_or(false) && !xs.iter().all(nodeless) {
+                out.insert("tuple-nodeless-first".into());
+            }
             for (x, y) in xs.iter().zip(ys) {
                 transition_tags(x, y, out);
             }
@@ -653,8 +814,15 @@ pub fn transition_tags(a: &ValD, b: &ValD, out: &mut BTreeSet<String>) {
                 out.insert("opt-some-some".into());
                 transition_tags(x, y, out);
             }
-            (Some(_), None) => {
+            (Some(x), None) => {
                 out.insert("opt-some-none".into());
+                if nodeless(x) {
+                    out.insert("switch-from-nodeless".into());
+                } else if let ValD::Tuple(ms) = &**x {
+                    if ms.first().map(nodeless).unwrap_or(false) {
+                        out.insert("switch-from-nodeless-first-tuple".into());
+                    }
+                }
             }
             (None, Some(_)) => {
                 out.insert("opt-none-some".into());
@@ -669,6 +837,13 @@ pub fn transition_tags(a: &ValD, b: &ValD, out: &mut BTreeSet<String>) {
                 transition_tags(x, y, out);
             } else {
                 out.insert("either-switch".into());
+                if nodeless(x) {
+                    out.insert("switch-from-nodeless".into());
+                } else if let ValD::Tuple(ms) = &**x {
+                    if ms.first().map(nodeless).unwrap_or(false) {
+                        out.insert("switch-from-nodeless-first-tuple".into());
+                    }
+                }
             }
         }
         (ValD::Vec(xs), ValD::Vec(ys)) => {
@@ -691,6 +866,13 @@ pub fn transition_tags(a: &ValD, b: &ValD, out: &mut BTreeSet<String>) {
                 transition_tags(x, y, out);
             } else {
                 out.insert("any-type-change".into());
+                if nodeless(x) {
+                    out.insert("switch-from-nodeless".into());
+                } else if let ValD::Tuple(ms) = &**x {
+                    if ms.first().map(nodeless).unwrap_or(false) {
+                        out.insert("switch-from-nodeless-first-tuple".into());
+                    }
+                }
             }
         }
         (ValD::Keyed(xs), ValD::Keyed(ys)) => {
